@@ -168,6 +168,10 @@ func (m *Monitors) betMonitors(c *Chain, o Op, res string, prev, cur *Snap) []st
 				}
 				if cover.Sign() < 0 {
 					bad("C02", "participation %d of market %d is short by %s if outcome %d wins", p.Index, uidNum(mk), new(big.Int).Neg(cover), uidNum(w))
+					if (o.Kind == "WDR" || o.Kind == "SWDR") && res == "ok" && o.Pidx == int64(p.Index) && marketUID(o.Mkt) == mk {
+						// the same shortfall as a statement about the withdrawal that has just been paid
+						bad("C09", "withdrawal from participation %d of market %d took liquidity needed to cover its bets: short by %s if outcome %d wins", p.Index, uidNum(mk), new(big.Int).Neg(cover), uidNum(w))
+					}
 				}
 			}
 		}
@@ -289,6 +293,14 @@ func (m *Monitors) betMonitors(c *Chain, o Op, res string, prev, cur *Snap) []st
 		return v
 	}
 
+	if m.mkCreator == nil {
+		m.mkCreator = map[string]string{}
+	}
+	for k, cm := range cur.Markets {
+		if _, seen := m.mkCreator[k]; !seen {
+			m.mkCreator[k] = cm.Creator
+		}
+	}
 	// ---------------- C07 market life cycle ----------------
 	for k, pm := range prev.Markets {
 		cm, ok := cur.Markets[k]
@@ -589,6 +601,13 @@ func (m *Monitors) betMonitors(c *Chain, o Op, res string, prev, cur *Snap) []st
 		// not a custody operation
 	case "END":
 		// ---------------- C03 / C04 settlement accounting ----------------
+		// fees are owed to the account that created the market (as recorded when it was added), whatever the store says now
+		creatorOf := func(uid string, mk markettypes.Market) string {
+			if c0, ok := m.mkCreator[uid]; ok {
+				return c0
+			}
+			return mk.Creator
+		}
 		newly := 0
 		for i := range cur.Bets {
 			b := &cur.Bets[i]
@@ -615,9 +634,9 @@ func (m *Monitors) betMonitors(c *Chain, o Op, res string, prev, cur *Snap) []st
 				for _, f := range b.BetFulfillment {
 					exp(b.Creator, add(f.BetAmount.BigInt(), f.PayoutProfit.BigInt()))
 				}
-				exp(mk.Creator, b.Fee.BigInt())
+				exp(creatorOf(b.MarketUID, mk), b.Fee.BigInt())
 			case bettypes.Bet_RESULT_LOST:
-				exp(mk.Creator, b.Fee.BigInt())
+				exp(creatorOf(b.MarketUID, mk), b.Fee.BigInt())
 			case bettypes.Bet_RESULT_REFUNDED:
 				exp(b.Creator, add(b.Amount.BigInt(), b.Fee.BigInt()))
 			}
@@ -670,7 +689,7 @@ func (m *Monitors) betMonitors(c *Chain, o Op, res string, prev, cur *Snap) []st
 					if p.TotalBetAmount.IsZero() {
 						exp(p.ParticipantAddress, p.Fee.BigInt())
 					} else {
-						exp(mk.Creator, p.Fee.BigInt())
+						exp(creatorOf(mkuid, mk), p.Fee.BigInt())
 					}
 				case markettypes.MarketStatus_MARKET_STATUS_CANCELED, markettypes.MarketStatus_MARKET_STATUS_ABORTED:
 					exp(p.ParticipantAddress, add(p.Liquidity.BigInt(), p.Fee.BigInt()))
